@@ -634,7 +634,9 @@ class MarkdownNormalizer(Renderer):
             None,
         )
         if label is not None:
-            if label == link_text:
+            # Labels are compared with whitespace runs collapsed (a link text broken across
+            # source lines is still the same label).
+            if label == re.sub(r"\s+", " ", link_text).strip():
                 return f"[{label}]"
             return f"[{link_text}][{label}]"
         title = f" {link_title}" if link_title is not None else ""
